@@ -322,7 +322,7 @@ def read_sinex_matrix(file):
         for line in f:
             if line[:25] == '-SOLUTION/MATRIX_ESTIMATE':
                 break
-            if go and line[:12] == '*PARA1 PARA2':
+            if go and line[:1] == '*':
                 pass
             elif go:
                 lines.append(line)
